@@ -3,6 +3,7 @@
 package lab
 
 import (
+	"bytes"
 	"encoding/hex"
 	"encoding/json"
 	"fmt"
@@ -104,6 +105,13 @@ func c08Alphabet() []c08Msg {
 		m("ext-unknown-id", func(g *GenTorrent, _ byte) refcodec.Msg { return refcodec.Extended(77, []byte("d1:ai1ee")) }),
 		m("meta-data(0)", func(g *GenTorrent, cid byte) refcodec.Msg {
 			return refcodec.Extended(cid, refcodec.MetadataPayload(1, 0, int64(len(g.InfoBytes)), blockOf(g.InfoBytes, 0)))
+		}),
+		m("meta-data(0,garbage of the right size)", func(g *GenTorrent, cid byte) refcodec.Msg {
+			return refcodec.Extended(cid, refcodec.MetadataPayload(1, 0, int64(len(g.InfoBytes)), bytes.Repeat([]byte{'z'}, len(blockOf(g.InfoBytes, 0)))))
+		}),
+		m("meta-data(index = number of blocks)", func(g *GenTorrent, cid byte) refcodec.Msg {
+			nb := uint32((len(g.InfoBytes) + 16383) / 16384)
+			return refcodec.Extended(cid, refcodec.MetadataPayload(1, nb, int64(len(g.InfoBytes)), []byte("x")))
 		}),
 		m("meta-data(2^18)", func(g *GenTorrent, cid byte) refcodec.Msg {
 			return refcodec.Extended(cid, refcodec.MetadataPayload(1, 1<<18, 5, []byte("hello")))
